@@ -170,7 +170,17 @@ class Check:
                 w = sorted({x for o in obs for x in o.meta.get("writes_outside_modifies", [])})
                 if w:
                     detail["writes_outside_modifies"] = w
-            if failed:
+            if failed and base.endswith(".frame.modifies") and not getattr(contract, "frame_is_property", False):
+                # the modifies clause is what call sites havoc: an auxiliary fact of the modular
+                # argument, no part of any property.  A body that writes more is not described
+                # by its contract any more -- the proofs that used it are not valid on this tree
+                # (undecided, the level drops); it is not a violation of the property.
+                status = "undecided"
+                detail["reason"] = ("the body writes outside the modifies clause of its contract: "
+                                    + ", ".join(detail.get("writes_outside_modifies", []))[:300])
+                self.undecided.append(f"{base}: {detail['reason']} -- call sites of {contract.key} are no longer "
+                                      "described by its contract")
+            elif failed:
                 status = "failed"
                 self.handle_failed(contract, base, failed[0], replay, detail)
             elif unknown:
@@ -333,7 +343,7 @@ class Check:
             if i.status == "discharged":
                 by_backend[i.backend] = by_backend.get(i.backend, 0) + 1
         level = level_if_complete
-        if level == "proof" and (n_dis != n_ob or n_ob == 0 or self.violations):
+        if level == "proof" and (n_dis != n_ob or n_ob == 0 or self.violations or self.undecided):
             level = "other"          # a run that reports a violation proves nothing
         if n_ob == 0 and not self.bounded:
             raise RuntimeError("vacuity: the check generated no obligation at all")
